@@ -183,6 +183,11 @@ def build_cases(tier: str) -> List[Dict[str, Any]]:
     pairs = list(itertools.product(A2, A2))
     for a, b in pairs[:: stride]:
         cases.append(case_of(next(cid), [SETUP + [a, b]]))
+    # (1c) the same systematic programs with the package's "running on hardware" setting on (values are then checked to fit
+    #      the word width; the programs here use small values, so every step has to be what it is with the setting off)
+    for k, c0 in enumerate(list(cases)):
+        if k % (3 if len(c0["progs"][0]) == n1 else 17) == 0:
+            cases.append(dict(case_of(next(cid), c0["progs"]), hw=True))
     # (1b) qubit allocation histories: every sequence of qalloc / qfree over three virtual ids (holes in the
     #      used set, re-allocation after a free, faults on double allocation / double free), also split over
     #      two subroutines of the same application
